@@ -538,7 +538,13 @@ func wellFormedXML(b []byte) error {
 }
 
 func runNCCase(id string, c *ncCase) {
-	defer watchCase(id, c)()
+	// a session may wait out its timeout once per operation (and the timeout grows with the volume
+	// of data at one byte per read): that is the case's configuration, not a hang
+	extra := time.Duration(len(c.Ops)+2) * time.Duration(c.TimeoutMS) * time.Millisecond * 3
+	if extra > maxCaseExtra {
+		extra = maxCaseExtra
+	}
+	defer watchCaseExtra(id, c, extra)()
 	srv := &sim.NCServer{Hello: buildHello(c), Echo: c.Echo, AfterDelim: c.AfterDelim}
 	for _, o := range c.Ops {
 		srv.Behaviours = append(srv.Behaviours, sim.Behaviour(o.Beh))
